@@ -36,13 +36,14 @@ var genOpts = lm.GenOpts{MaxDepth: 2}
 
 // monitor is the destination: it checks that Write calls never overlap and that the payload is stable.
 type monitor struct {
-	inflight  atomic.Int32
-	yields    int
-	spins     int
-	failEvery int // every n-th Write reports an error or a short write (0: never)
-	mu        sync.Mutex
-	writes    [][]byte
-	problems  []string
+	inflight   atomic.Int32
+	yields     int
+	spins      int
+	failEvery  int // every n-th Write reports an error or a short write (0: never)
+	panicEvery int // every n-th Write panics after it has taken the payload (0: never); the logging goroutine recovers
+	mu         sync.Mutex
+	writes     [][]byte
+	problems   []string
 }
 
 func (m *monitor) problem(format string, args ...any) {
@@ -81,6 +82,9 @@ func (m *monitor) Write(p []byte) (int, error) {
 	}
 	// a destination may fail or write short: that is the destination's business, the logger must neither retry
 	// (a second Write for the same record) nor get confused about later records
+	if m.panicEvery > 0 && nth%m.panicEvery == 0 {
+		panic("destination: Write panicked (as bytes.Buffer does when it cannot grow)")
+	}
 	if m.failEvery > 0 && nth%m.failEvery == 0 {
 		if nth%2 == 0 {
 			return 0, errors.New("destination: write failed")
@@ -112,15 +116,16 @@ type op struct {
 }
 
 type scenario struct {
-	kind      int
-	threshold slog.Level
-	colorful  bool
-	addSource bool
-	shared    [][]lm.Step // chains of the loggers derived before the run (index 0 = root, empty chain)
-	scripts   [][]op
-	yields    int
-	spins     int
-	failEvery int
+	kind       int
+	threshold  slog.Level
+	colorful   bool
+	addSource  bool
+	shared     [][]lm.Step // chains of the loggers derived before the run (index 0 = root, empty chain)
+	scripts    [][]op
+	yields     int
+	spins      int
+	failEvery  int
+	panicEvery int
 }
 
 func (sc *scenario) opts() *logger.Options {
@@ -164,6 +169,9 @@ func genScenario(t *rapid.T) *scenario {
 		yields:    rapid.SampledFrom([]int{0, 1, 2, 5, 20}).Draw(t, "yields"),
 		spins:     rapid.SampledFrom([]int{0, 0, 1000, 100000}).Draw(t, "spins"),
 		failEvery: rapid.SampledFrom([]int{0, 0, 0, 1, 3, 7}).Draw(t, "destinationFailsEvery"),
+		// a destination whose Write panics now and then; the caller recovers (as net/http, Relay and worker pools do)
+		// and carries on logging: the records that follow are written like any other
+		panicEvery: rapid.SampledFrom([]int{0, 0, 0, 0, 2, 5}).Draw(t, "destinationPanicsEvery"),
 	}
 	sc.shared = [][]lm.Step{nil}
 	for i, n := 0, rapid.IntRange(0, 5).Draw(t, "nshared"); i < n; i++ {
@@ -258,7 +266,7 @@ type outcome struct {
 
 func runScenario(sc *scenario) (string, outcome) {
 	var oc outcome
-	mon := &monitor{yields: sc.yields, spins: sc.spins, failEvery: sc.failEvery}
+	mon := &monitor{yields: sc.yields, spins: sc.spins, failEvery: sc.failEvery, panicEvery: sc.panicEvery}
 	rootH := lm.NewHandler(sc.kind, mon, sc.opts())
 	root := logger.New(rootH)
 	shared := make([]*logger.Logger, len(sc.shared))
@@ -275,19 +283,22 @@ func runScenario(sc *scenario) (string, outcome) {
 			defer wg.Done()
 			<-start
 			for _, o := range script {
-				if o.direct {
-					h := sharedH[o.base]
-					if o.derive != nil {
-						h = lm.DeriveHandler(h, []lm.Step{*o.derive})
+				func() {
+					defer func() { _ = recover() }() // a panic out of the destination's Write; the goroutine carries on
+					if o.direct {
+						h := sharedH[o.base]
+						if o.derive != nil {
+							h = lm.DeriveHandler(h, []lm.Step{*o.derive})
+						}
+						handle(h, o)
+						return
 					}
-					handle(h, o)
-					continue
-				}
-				l := shared[o.base]
-				if o.derive != nil {
-					l = lm.Derive(l, []lm.Step{*o.derive})
-				}
-				lm.Emit(l, o.form, o.level, o.msg(), o.attrs)
+					l := shared[o.base]
+					if o.derive != nil {
+						l = lm.Derive(l, []lm.Step{*o.derive})
+					}
+					lm.Emit(l, o.form, o.level, o.msg(), o.attrs)
+				}()
 			}
 		}(script)
 	}
